@@ -86,7 +86,7 @@ struct source {
 	size_t len, pos;
 	long reads;     /* calls of getc */
 	long past;      /* calls after the end was reported once */
-	int raw0;       /* deliver NUL bytes as 0 (as mpt_getchar_file would) */
+	int endcode;    /* what the source answers at its end: -2 end of input, -1 read error */
 };
 static int src_getc(void *arg)
 {
@@ -95,7 +95,7 @@ static int src_getc(void *arg)
 	if (s->pos >= s->len) {
 		if (s->pos > s->len) s->past++;
 		s->pos = s->len + 1;
-		return -2;
+		return s->endcode;
 	}
 	return s->data[s->pos++];
 }
@@ -249,6 +249,7 @@ static void warm_up(void)
 	text[398] = '\n'; text[399] = '}';
 	memset(&src, 0, sizeof(src));
 	src.data = text; src.len = 400;
+	src.endcode = -2;
 	ctx.src.getc = src_getc;
 	ctx.src.arg = &src;
 	(void) mpt_parse_node(&tmp, &ctx, 0);
@@ -296,6 +297,12 @@ static void setup(struct cmd *c, MPT_STRUCT(parser_context) *ctx, struct source 
 	*ctx = init;
 	memset(src, 0, sizeof(*src));
 	src->data = *text; src->len = tlen;
+	src->endcode = -2;
+	if (drv_has(c, "fail")) {        /* read error after <fail> bytes */
+		size_t f = (size_t) drv_uint(c, "fail", 0);
+		if (f < tlen) src->len = f;
+		src->endcode = -1;
+	}
 	ctx->src.getc = src_getc;
 	ctx->src.arg = src;
 	if (!accnull) {
